@@ -20,7 +20,8 @@ RULE = (
     "Pool of 20 insertions over fluents x,y (real), b (bool), o (object), u(T) (assign constants 1/2/Int-vs-Real 1/fluent, "
     "increase, decrease, conditional variants, forall variants, simulated effects over {x},{b},{x,b},{y}); every multiset of "
     "size <=3 (quick) / <=4 (thorough), every distinct permutation, on InstantaneousAction, one DurativeAction timing and "
-    "Problem timed effects (no simulated effects there).  Checks: (a) 'some insertion raised UPConflictingEffectsException' "
+    "Problem timed effects (no simulated effects there), plus the DurativeAction container with the time of each "
+    "insertion given alternately in its two equivalent forms (Timing / bare Timepoint; Problem.add_timed_effect is typed Timing only).  Checks: (a) 'some insertion raised UPConflictingEffectsException' "
     "is permutation-invariant, (b) each insertion's verdict equals its verdict in a fresh container holding only the "
     "previously *accepted* insertions, (c) a rejected insertion leaves effects / simulated effect unchanged.  "
     "Non-trivial = multiset with >=2 items on one ground fluent or an effect on a simulated fluent; distinct by multiset."
@@ -102,7 +103,7 @@ class Container:
         if kind == "inst":
             self.c = InstantaneousAction("a", _env=w.env)
             self.t = None
-        elif kind == "dur":
+        elif kind in ("dur", "dur-tp"):
             self.c = DurativeAction("a", _env=w.env)
             self.t = StartTiming()
         else:
@@ -111,6 +112,20 @@ class Container:
                 self.c.add_fluent(f)
             self.c.add_objects([w.o1, w.o2])
             self.t = GlobalStartTiming(5)
+        self.n = 0
+
+    def t_arg(self):
+        """The time argument of the next effect insertion.  The API takes any TimeExpression (a Timing, a
+        bare Timepoint, a number = offset from the global start); the *-tp / *-num containers alternate
+        between the equivalent forms of one and the same time, which must not change any verdict."""
+        from fractions import Fraction
+
+        from unified_planning.model.timing import Timepoint, TimepointKind
+
+        self.n += 1
+        if self.kind == "dur-tp":
+            return Timepoint(TimepointKind.START) if self.n % 2 else self.t
+        return self.t
 
     def insert(self, i):
         """True if accepted, False if UPConflictingEffectsException."""
@@ -128,12 +143,12 @@ class Container:
                 if self.kind == "inst":
                     m = {"assign": "add_effect", "inc": "add_increase_effect", "dec": "add_decrease_effect"}[k]
                     getattr(self.c, m)(fl, val, cond, fa)
-                elif self.kind == "dur":
+                elif self.kind in ("dur", "dur-tp"):
                     m = {"assign": "add_effect", "inc": "add_increase_effect", "dec": "add_decrease_effect"}[k]
-                    getattr(self.c, m)(self.t, fl, val, cond, fa)
+                    getattr(self.c, m)(self.t_arg(), fl, val, cond, fa)
                 else:
                     m = {"assign": "add_timed_effect", "inc": "add_increase_effect", "dec": "add_decrease_effect"}[k]
-                    getattr(self.c, m)(self.t, fl, val, cond, fa)
+                    getattr(self.c, m)(self.t_arg(), fl, val, cond, fa)
             return True
         except UPConflictingEffectsException:
             return False
@@ -141,7 +156,7 @@ class Container:
     def view(self):
         if self.kind == "inst":
             return (tuple(map(repr, self.c.effects)), repr(self.c.simulated_effect))
-        if self.kind == "dur":
+        if self.kind in ("dur", "dur-tp"):
             return (tuple(map(repr, self.c.effects.get(self.t, []))), repr(self.c.simulated_effects.get(self.t)))
         return (tuple(map(repr, self.c.timed_effects.get(self.t, []))), None)
 
@@ -185,7 +200,7 @@ def run_perm(kind, perm, case):
     return verdicts, a.view()
 
 
-def check_multiset(ctx, ms, kinds=("inst", "dur", "prob"), max_perms=None):
+def check_multiset(ctx, ms, kinds=("inst", "dur", "prob", "dur-tp"), max_perms=None):
     nontriv = False
     nsim = sum(1 for i in ms if i in SIM_ITEMS)
     fl = [FLUENT_OF.get(i) for i in ms if i not in SIM_ITEMS]
